@@ -180,6 +180,21 @@ func plans(id, tier string) (Plan, bool) {
 			{Pkg: pkgCP, Harness: "c18_lexer", Shards: 16, MaxProcs: 2},
 			{Pkg: pkgCP, Harness: "c18_chunks", Shards: pick(2, 8), MaxProcs: 2},
 		}}, true
+	case "C19":
+		var jobs []Job
+		type cfg struct{ files, tasks int }
+		cfgs := []cfg{{1, 1}, {2, 1}, {2, 2}, {3, 2}}
+		if th {
+			cfgs = append(cfgs, cfg{3, 1}, cfg{3, 3}, cfg{4, 2}, cfg{4, 3})
+		}
+		for i, cf := range cfgs {
+			h := "no"
+			if i%2 == 1 {
+				h = "yes"
+			}
+			jobs = append(jobs, Job{Pkg: pkgBackend, Harness: "c19_pool", Instr: "backend", Params: fmt.Sprintf("files=%d;tasks=%d;headers=%s;policy=preemption;budget=%d", cf.files, cf.tasks, h, pick(2, 3)), Shards: pick(2, 8)})
+		}
+		return Plan{Level: "model_checking", Jobs: jobs}, true
 	case "C20":
 		return Plan{Level: "model_checking", Jobs: []Job{
 			{Pkg: pkgSets, Harness: "c20_stringset", Shards: pick(4, 8)},
